@@ -193,6 +193,55 @@ fn main() {
                         let _ = std::fs::write(resolve(step["out"].as_str().unwrap_or("spawned")), rec.to_string());
                     }
                 }
+                // leave a descendant behind that keeps this process's stdout and stderr open for `ms` milliseconds
+                // (what a command does that starts a background service and returns)
+                "background_hold" => {
+                    let ms = step["ms"].as_u64().unwrap_or(1000);
+                    unsafe {
+                        let pid = libc::fork();
+                        if pid == 0 {
+                            libc::setsid();
+                            std::thread::sleep(std::time::Duration::from_millis(ms));
+                            libc::_exit(0);
+                        }
+                    }
+                }
+                // change the mode of a file (path relative to this process's working directory unless absolute)
+                "chmod" => {
+                    use std::os::unix::fs::PermissionsExt;
+                    if let (Some(pth), Some(mode)) = (step["path"].as_str(), step["mode"].as_u64()) {
+                        let _ = std::fs::set_permissions(pth, std::fs::Permissions::from_mode(mode as u32));
+                    }
+                }
+                // write `times` copies of a text (volume without a giant script); with "unique": true every copy gets a
+                // running number and a pseudo-random tail so that the stream does not compress away
+                "out_repeat" => {
+                    let t = step["text"].as_str().unwrap_or("");
+                    let times = step["times"].as_u64().unwrap_or(1);
+                    let unique = step["unique"].as_bool().unwrap_or(false);
+                    let to_err = step["stream"].as_str() == Some("stderr");
+                    let mut buf: Vec<u8> = Vec::with_capacity(1 << 20);
+                    let mut x: u64 = 0x9E3779B97F4A7C15;
+                    for i in 0..times {
+                        if unique {
+                            x ^= x << 13; x ^= x >> 7; x ^= x << 17;
+                            buf.extend_from_slice(format!("{:08} {:016x}{:016x} ", i, x, x.rotate_left(29)).as_bytes());
+                        }
+                        buf.extend_from_slice(t.as_bytes());
+                        if buf.len() >= (1 << 20) || i + 1 == times {
+                            if to_err {
+                                let mut e = std::io::stderr();
+                                let _ = e.write_all(&buf);
+                                let _ = e.flush();
+                            } else {
+                                let mut o = std::io::stdout();
+                                let _ = o.write_all(&buf);
+                                let _ = o.flush();
+                            }
+                            buf.clear();
+                        }
+                    }
+                }
                 // die of a signal (after recording the end event with the negated signal number as code)
                 "signal" => {
                     let sig = step["sig"].as_i64().unwrap_or(9) as i32;
